@@ -36,6 +36,18 @@ SCHEMAS = {
         type RootM { touch(at: DateTime): Boolean }
     ''',
     "minimal": "type Query { a: Int }",
+    "extensions": '''
+        schema { query: Q }
+        type Q { a: Int }
+        type M { set(v: Mode = SLOW): Int }
+        type S { ticks: Int }
+        enum Mode { SLOW }
+        input In { a: Int }
+        extend schema { mutation: M subscription: S }
+        extend type Q { b(i: In): Mode }
+        extend enum Mode { FAST }
+        extend input In { b: Mode = FAST }
+    ''',
     "multi-line-schema-and-directive-descriptions": '''
         """First line of the schema description
         second line: with "quotes", a # hash and a \\ backslash
